@@ -324,6 +324,15 @@ func CallsTo(fn *ssa.Function, ids ...string) []ssa.CallInstruction {
 // DependsOn reports whether v transitively (through operands, phis, loads of local allocs with
 // their stores, and call arguments/receivers) depends on a value satisfying pred. Depth-bounded.
 func DependsOn(v ssa.Value, pred func(ssa.Value) bool) bool {
+	return dependsOn(v, pred, false)
+}
+
+// DependsOnNoPhi is DependsOn that does not look through phi nodes (the phi itself is tested).
+func DependsOnNoPhi(v ssa.Value, pred func(ssa.Value) bool) bool {
+	return dependsOn(v, pred, true)
+}
+
+func dependsOn(v ssa.Value, pred func(ssa.Value) bool, stopAtPhi bool) bool {
 	seen := map[ssa.Value]bool{}
 	var rec func(v ssa.Value, d int) bool
 	rec = func(v ssa.Value, d int) bool {
@@ -333,6 +342,9 @@ func DependsOn(v ssa.Value, pred func(ssa.Value) bool) bool {
 		seen[v] = true
 		if pred(v) {
 			return true
+		}
+		if _, isPhi := v.(*ssa.Phi); isPhi && stopAtPhi {
+			return false
 		}
 		// loads from a local alloc: follow the stores into it
 		if u, ok := v.(*ssa.UnOp); ok && u.Op == token.MUL {
